@@ -12,6 +12,19 @@ and 1100 values on one line / over many lines, words / blank runs / comment line
 characters - each read and edited once in every way.  Such a case carries a compact "layout"
 ([[piece, repeat], ...], see gen.expand) instead of "first"/"rest"; the oracle is the same.
 
+White space: the statement splits on / ignores "whitespace" without naming characters, so the blanks
+of a field are not only space and tab.  The reference is Unicode white space (str.isspace(), the set
+`\\s` matches in a str pattern and str.split() / str.strip() work on).  gen.ODD_BLANKS (NO-BREAK SPACE,
+U+3000, U+2000..U+200A, U+1680, U+202F, U+205F, U+001F) stand wherever a blank may stand - as the only
+separator between two words, among ordinary blanks, after the colon, at line ends, inside a comma item
+(where they are part of the value) - and such fields are read and edited like any other.  The white
+space str.splitlines() also takes for a line boundary (gen.LINE_BREAKERS: CR, VT, FF, FS, GS, RS, NEL,
+LS, PS) is used as the last character of lines only: whole CR LF documents (case key "eol") and
+single lines ending on one of them.  Such a field is read in every way, opened and closed, handed
+refused values; which edits are made on it is listed under ASSUMPTIONS.  The "white-space" source
+enumerates layouts written down together with the values they were built from (case key "expect");
+the splitting oracle has to find exactly those.
+
 Besides the edits the statement names (append / remove / replace / ValueReference), a history may
 contain the other public steps of the list view.  None of them changes the reference list, they
 only change what surrounds the values when the next edit happens and how / whether the field is
@@ -100,13 +113,38 @@ RULE = ("case = one list field (whitespace- or comma-separated; 1..4 lines, thor
         "1..40 comment lines, 130 and 1100 values on one line / one or three per line / with comment "
         "lines, words, blank runs and comment lines of 100..100000 characters, both kinds, x {read, "
         "read through references, append, remove, replace, reference assignment, reference removal of "
-        "the big value and a neighbour}. Non-trivial = the field has >=2 "
+        "the big value and a neighbour}. White space (enumerated; in 3 of 8 generated fields up to "
+        "three blanks are swapped for other Unicode white space, 1 of 16 documents is CR LF, in 1 of 16 "
+        "some field lines end on VT / FF / CR / FS / GS / RS / NEL / LS / PS): each of the 17 white-space "
+        "characters that are neither space, tab nor a line boundary for str.splitlines, in 6..7 layouts "
+        "per kind (alone between two words / inside a comma item, among blanks, after the colon and the "
+        "continuation marker, at line ends, doubled, alone on the first line, in comment lines, around "
+        "commas, as an empty item, in an item spanning lines) x {reads, no-op closes, second view, "
+        "refused values holding the character, every single remove / replace / reference edit, "
+        "reformat, formatter, drain, appends of every flavour}; each of the 9 line-boundary characters "
+        "ending 1..3 lines of 4 layouts per kind, and 3..4 layouts in a CR LF document, x {reads, "
+        "no-op closes, second view, refused values} (CR: + every single remove / replace / reference "
+        "edit, reformat, formatter, drain). Non-trivial = the field has >=2 "
         "lines or a comment line, and >=1 edit was applied successfully or refused; distinct = canonical JSON")
 ASSUMPTIONS = [
     "splitting oracle: drop lines 2.. that start with '#', then str.split() / split(',')+strip+drop "
     "empties (gen/c11_listfields.split_values); the model of a history is a Python list",
     "fields without any value are outside the domain (the value tokenizer asserts non-blank input)",
-    "characters: space, tab and printable non-space characters only (no CR/VT/FF/NBSP/U+2028...)",
+    "characters: space, tab, printable non-space characters and Unicode white space (str.isspace(): "
+    "`\\s`, str.split(), str.strip() agree on the set; gen.all_white_space() checks the two lists "
+    "against this Python). gen.ODD_BLANKS anywhere a blank may stand in the field (not as continuation "
+    "marker, not in other fields, not in comment texts handed to append_comment); a continuation line "
+    "of white space only is a blank line and ends the paragraph (not generated)",
+    "gen.LINE_BREAKERS (CR VT FF FS GS RS NEL LS PS: white space str.splitlines() takes for a line "
+    "boundary) only as the LAST character of a line of the field (comment lines: CR only) or, CR, of "
+    "every line of the document. NOT covered because the unchanged library already fails there (it "
+    "cuts value text with str.splitlines): such a character anywhere else in a line ('F: a\\x0cb c' "
+    "reads ['a', 'c']), a comment line inside a comma item ending on one ('F: a\\n#\\x0c\\n b' reads "
+    "['a\\n\\n b']), any write-back of a field holding one other than CR (ValueError 'Input is "
+    "inconsistent with its line endings'), append / append_comment / append_newline / "
+    "append_separator in a CR LF document (ValueError when the last line of the field ends on CR). On "
+    "a field holding a line breaker other than CR no edit is made (reads, closes, refused values, "
+    "absent values only); with CR alone every edit but the four appenders is made and checked",
     "sizes: the statement bounds neither the number of values, lines or comment lines nor the length "
     "of an item, word or blank run; the 'sizes' source goes up to 1100 values (thorough 5000), 40 "
     "lines per item (thorough 257) and 100000 characters (thorough 300000); bigger fields are not "
@@ -164,7 +202,20 @@ EXHAUSTIVE_SIZES = (
     "colon, a comment line of n characters; each x {no edit, read through references, append "
     "(preserve / reformat), remove / replace / reference assignment / reference removal of the big "
     "value and of a neighbour (many values: first, middle, last), remove in reformat mode}")
-EXHAUSTIVE = {tier: text + "; " + EXHAUSTIVE_SIZES for tier, text in EXHAUSTIVE.items()}
+EXHAUSTIVE_WHITE_SPACE = (
+    "white space (every case carries the values its field was built from): each of the 17 characters "
+    "of gen.ODD_BLANKS in 6 whitespace-list and 7 comma-list layouts x {no edit, reads through the "
+    "view and through references, re-enter, reopen, a second view (2 ways), refused append / replace / "
+    "reference assignment of a text holding the character, remove of an absent value, every single "
+    "remove / replace / reference assignment / reference removal, reformat + remove, forced formatter, "
+    "drain, refused replace then remove, append (preserve / reformat / after newline / after comment / "
+    "after a refused one / across a reopen), comma: append and replace with a value holding the "
+    "character, append after a separator}; each of the 9 characters of gen.LINE_BREAKERS ending 1..3 "
+    "lines of 4 layouts per kind, and 3 / 4 layouts in a CR LF document, x the histories above that "
+    "write nothing back (CR: + those that append nothing); 3 surroundings (field in the middle / last "
+    "and unterminated / before a second paragraph)")
+EXHAUSTIVE = {tier: text + "; " + EXHAUSTIVE_SIZES + "; " + EXHAUSTIVE_WHITE_SPACE
+              for tier, text in EXHAUSTIVE.items()}
 BUDGET = {"quick": 240, "thorough": 2400}
 
 INTERP = {"ws": LIST_SPACE_SEPARATED_INTERPRETATION, "comma": LIST_COMMA_SEPARATED_INTERPRETATION}
@@ -239,7 +290,7 @@ def own_syntax_problem(name, ftext, must_end_nl):
             continue
         if l[:1] not in (" ", "\t"):
             return "line %r is neither a comment nor a continuation line" % l
-        if l.strip() == "":
+        if l.strip() == "":             # Unicode white space: such a line ends the paragraph
             return "blank continuation line"
     if len(lines) > 1 and lines[-1].startswith("#"):
         return "field ends on a comment line"
@@ -265,7 +316,7 @@ def layout_labels(case, value_text, values):
         out.append("first-line-empty")
     elif first.strip() == "":
         out.append("first-line-blanks-only")
-    elif first[0] not in " \t":
+    elif not first[0].isspace():
         out.append("no-blank-after-colon")
     if any(r.startswith("\t") for r in rest):
         out.append("tab-continuation")
@@ -305,6 +356,21 @@ def layout_labels(case, value_text, values):
     else:
         if any(("," in v) for v in values):
             out.append("comma-in-ws-value")
+    odd = sorted(set(c for l in [first] + list(rest) for c in l if c in G.ODD_BLANKS))
+    if odd:
+        out.append("odd-blank-in-field")
+        out.extend("odd-blank:U+%04X" % ord(c) for c in odd)
+        flat = "\n".join(l for _, l in G.content_lines(value_text))
+        if any(c in G.ODD_BLANKS and not a.isspace() and not b.isspace()
+               for a, c, b in zip(flat, flat[1:], flat[2:])):
+            out.append("odd-blank-alone-between-words" if kind == "ws" else "odd-blank-inside-item")
+        if any(c in G.ODD_BLANKS and a in " \t" and b in " \t" for a, c, b in zip(flat, flat[1:], flat[2:])):
+            out.append("odd-blank-between-ordinary-blanks")
+    breakers = G.line_breakers(case)
+    if case.get("eol"):
+        out.append("cr-lf-document")
+    elif breakers:
+        out.extend("line-ends-on:U+%04X" % ord(c) for c in breakers)
     if not case["tail"]:
         out.append("list-field-is-last" + ("" if case["eof_nl"] else "-unterminated"))
     if "" in case["tail"]:
@@ -399,6 +465,10 @@ class Probe(object):
 # one view object: one or several ``with`` sessions
 
 
+EDITORS = ("remove", "replace", "ref_set", "ref_remove", "drain", "reformat", "formatter")
+APPENDERS = ("append", "append_comment", "append_newline", "append_separator")
+
+
 class Session(object):
     def __init__(self, case, para, value_text, values, labels, probe, capture):
         self.kind = case["kind"]
@@ -408,6 +478,7 @@ class Session(object):
         self.labels = labels
         self.probe = probe
         self.capture = capture  # take one reference per value when the view is first entered
+        self.breakers = G.line_breakers(case)   # see unsupported()
         self.model = [[i, v] for i, v in enumerate(values)]     # [id, value]
         self.next_id = len(values)
         self.view = None
@@ -512,7 +583,7 @@ class Session(object):
             self.refusals += 1
             self.labels.add("op:%s-refused" % what)
             self.labels.add("refused-value:" + ("empty" if v == "" else "line-break" if "\n" in v else
-                                                "blanks-around" if v != v.strip(" \t") else
+                                                "blanks-around" if v != v.strip() else
                                                 "separator-inside"))
             if self.edits:
                 self.labels.add("refused-after-edit")
@@ -530,8 +601,21 @@ class Session(object):
         if self.probe.view is not None:
             self.labels.add("edit-while-second-view-alive")
 
+    def unsupported(self, op):
+        """Would ``op`` write the field back although it holds LINE_BREAKERS (see ASSUMPTIONS)?"""
+        k = op[0]
+        if k in ("append", "replace", "ref_set") and \
+                not G.valid_new_value(self.kind, op[1] if k == "append" else op[2]):
+            return False        # refused (or skipped) anyway: nothing is written
+        if self.breakers == "\r":
+            return k in APPENDERS
+        return k in EDITORS or k in APPENDERS
+
     def step(self, op):
         k, view, model = op[0], self.view, self.model
+        if self.breakers and self.unsupported(op):
+            self.labels.add("op-not-made:field-holds-line-breaker")
+            return
         if k == "append":
             v = op[1]
             if not G.valid_new_value(self.kind, v):
@@ -741,6 +825,10 @@ def check(case):
     doc = prefix + ftext + suffix
     value_text = ftext[len(name) + 1:]
     values = G.split_values(kind, value_text)
+    if "expect" in case and case["expect"] != values:
+        # the generator built the field from these values: the splitting oracle must find them again
+        raise AssertionError("harness: the field %r was built from %r, split_values() gives %r"
+                             % (value_text, case["expect"], values))
     labels = set(layout_labels(case, value_text, values))
     labels.update(size_labels(case, value_text, values))
     if compact:
@@ -854,8 +942,10 @@ def sources(tier):
     if tier == "quick":
         return [Enum("layouts<=2-single-edits", G.enum_cases(2, False), EXHAUSTIVE["quick"]),
                 Enum("sizes", G.enum_sizes("quick"), EXHAUSTIVE_SIZES),
+                Enum("white-space", G.enum_odd_blanks(), EXHAUSTIVE_WHITE_SPACE),
                 Hyp("fields-x-histories", G.gen_case(5, 4), 700, shards=16)]
     return [Enum("layouts<=3-single-edits+removal-pairs", G.enum_cases(3, True), EXHAUSTIVE["thorough"]),
             Enum("sizes", G.enum_sizes("thorough"), EXHAUSTIVE_SIZES),
+            Enum("white-space", G.enum_odd_blanks(), EXHAUSTIVE_WHITE_SPACE),
             Hyp("fields-x-histories", G.gen_case(5, 4), 15000, shards=10),
             Hyp("long-fields-x-histories", G.gen_case(8, 6), 10000, shards=6)]
